@@ -498,7 +498,7 @@ def case_invariant_cache(seed, idx, res):
     hits_on = []
     import symrun
 
-    up = rng.choice([0.0, 0.5, 1.0, 1.0])  # branching `unknown`s let infeasible candidates reach the assertion solver, which leaves unsat cores
+    up = rng.choice([0.0, 0.5, 0.5, 1.0])  # branching `unknown`s let infeasible candidates reach the assertion solver, which leaves unsat cores
     threads = rng.choice([1, 4])
     res["features"][f"invariant-cache:unknown_p={up}"] += 1
     for cache in (True, False):
@@ -574,15 +574,15 @@ def main():
     n = run.n(70, 2000)
     tasks = [(lo, min(n, lo + 2), run.seed) for lo in range(0, n, 2)]
     run_pool(run, worker, tasks, soft_timeout=900)
-    tasks2 = [("empty", i, i + 2, run.seed) for i in range(0, run.n(8, 100), 2)] + [("cross", i, i + 1, run.seed) for i in range(run.n(4, 80))]
-    tasks2 += [("invcache", i, i + 2, run.seed) for i in range(0, run.n(12, 300), 2)]
-    tasks2 += [("weaker", i, i + 2, run.seed) for i in range(0, run.n(4, 40), 2)]
+    tasks2 = [("empty", i, i + 2, run.seed) for i in range(0, run.n(8, 100), 2)] + [("cross", i, i + 1, run.seed) for i in range(run.n(3, 80))]
+    tasks2 += [("invcache", i, i + 2, run.seed) for i in range(0, run.n(8, 300), 2)]
+    tasks2 += [("weaker", i, i + 2, run.seed) for i in range(0, run.n(2, 40), 2)]
     tasks2 += [("crafted", i, i + 5, run.seed) for i in range(0, run.n(20, 400), 5)]
     run_pool(run, worker2, tasks2, soft_timeout=900)
     run.require("empty_core_histories", 6)
-    run.require("cross_context_histories", 4)
-    run.require("invariant_cache_histories", 8)
-    run.require("weaker_query_histories", 4)
+    run.require("cross_context_histories", 3)
+    run.require("invariant_cache_histories", 6)
+    run.require("weaker_query_histories", 2)
     run.require("crafted_hits_on_supersets", 10)
     run.require("cache_hits", 100)
     run.require("hits_confirmed_unsat", 100)
